@@ -46,7 +46,10 @@ Definition sign_of_pieces (d m s : R) : R :=
   if Rlt_dec d 0 then -1 else if Rlt_dec m 0 then -1 else if Rlt_dec s 0 then -1 else 1.
 
 (* reduce_dms as an explicit function of the absolute values a = |d|, b = |m|, c = |s|
-   (c60 is the literal 60.0; the branches are those of the code) *)
+   (c60 is the literal 60.0).  This is a TRANSCRIPTION of the branches of the code, not an
+   independent specification: the theorem reduce_dms_ideal "model = dms_spec" pins the code
+   (a changed branch breaks it) and yields shape + sign rule; the independent value statements
+   are dms2deg_canonical below and C03_dms_int.v (canonical pieces). *)
 Definition c60 : R := Rlit 600 (-1).
 Definition dms_spec (a b c : R) : Z * Z * R :=
   let f1 := Rfmod a 1 in
